@@ -5,6 +5,7 @@ import (
 	"gorgonia.org/tensor"
 	"math"
 
+	"verif/harness/gen"
 	"verif/harness/mon"
 	"verif/harness/ref"
 )
@@ -240,6 +241,19 @@ func CheckOp(c *Ctx, req mon.OpReq, exp Expect, viaModel bool, mo mon.ModelOpts,
 			report(c, "api, input list with spare capacity holding other tensors", req, exp, osp, v, known)
 		}
 	}
+	if c.Idx%8 == 7 && ok {
+		// operands that are Clone()s of the caller's tensors, used for two calls
+		o1, o2 := mon.RunOpAPIClones(req)
+		c.Eval(2)
+		c.Count("cloned-operand-calls", 1)
+		if v := Judge(exp, o1); !v.OK {
+			ok = false
+			report(c, "api, operands are Clone()s of the caller's tensors", req, exp, o1, v, known)
+		} else if v := Judge(exp, o2); !v.OK {
+			ok = false
+			report(c, "api, second call on the same cloned operand objects (fresh operator instance)", req, exp, o2, v, known)
+		}
+	}
 	if c.Idx%8 == 5 && ok {
 		// the same instance and the same tensor objects, whose contents the caller has
 		// overwritten in place since the previous call
@@ -267,6 +281,21 @@ func CheckOp(c *Ctx, req mon.OpReq, exp Expect, viaModel bool, mo mon.ModelOpts,
 		if v := Judge(exp, ou); !v.OK {
 			ok = false
 			report(c, "model, behind a node with an omitted output", req, exp, ou, v, known)
+		}
+	}
+	if viaModel && c.Idx%8 == 0 && exp.Kind == MustEqual && len(exp.Want) > 0 && exp.Want[0] != nil {
+		// the node between two other nodes: its data operand and its first result are
+		// intermediate values of the graph (neither caller tensors, weights nor outputs)
+		if g, feed, made := sandwichModel(req, mo, exp.Want[0].T); made {
+			for n := 1; n <= 2 && ok; n++ {
+				osw := mon.RunGraph(g, feed)
+				c.Eval(1)
+				if v := Judge(exp, osw); !v.OK {
+					ok = false
+					report(c, fmt.Sprintf("model, node between two Reshape nodes (operand and result are intermediate values), load+Run %d", n), req, exp, osw, v, known)
+				}
+			}
+			c.Count("models-with-the-node-between-two-others", 1)
 		}
 	}
 	if viaModel {
@@ -380,6 +409,44 @@ func hasAbsentInput(r mon.OpReq) bool {
 // addOmittedOutputUpstream prepends a small GRU node whose first output (Y) is
 // omitted; its Y_h is not a graph output (a dead value), so the outputs of the
 // graph stay those of the node under test.
+// sandwichModel renders the request as a three-node model: Reshape(input 0, its own
+// shape) -> the node under test -> Reshape(result 0, its own shape). The two Reshape
+// nodes change no value; they make the data operand and the first result of the node
+// intermediate values of the graph.
+func sandwichModel(req mon.OpReq, mo mon.ModelOpts, want0 *ref.T) (*mon.Graph, map[string]*ref.T, bool) {
+	if len(req.Inputs) == 0 || req.Inputs[0] == nil || req.Inputs[0].DT == ref.Str || want0.DT == ref.Str || len(req.Inputs[0].Bits) == 0 || len(want0.Bits) == 0 {
+		return nil, nil, false
+	}
+	g, feed := mon.BuildOpModel(req, mo)
+	if len(g.Nodes) != 1 || len(g.Nodes[0].Inputs) == 0 || g.Nodes[0].Inputs[0] != "i0" || len(g.Nodes[0].Outputs) == 0 || g.Nodes[0].Outputs[0] == "" || len(g.Outputs) == 0 {
+		return nil, nil, false
+	}
+	shapeOf := func(t *ref.T) *ref.T {
+		v := make([]int64, len(t.Shape))
+		for i, d := range t.Shape {
+			v[i] = int64(d)
+		}
+		return gen.I64s(v...)
+	}
+	node := g.Nodes[0]
+	first := node.Outputs[0]
+	node.Inputs = append([]string{}, node.Inputs...)
+	node.Outputs = append([]string{}, node.Outputs...)
+	for i, name := range node.Inputs { // the operand may be read at several positions
+		if name == "i0" {
+			node.Inputs[i] = "sw_operand"
+		}
+	}
+	node.Outputs[0] = "sw_result"
+	g.Inits = append(g.Inits, mon.GInit{Name: "sw_shape_in", T: shapeOf(req.Inputs[0])}, mon.GInit{Name: "sw_shape_out", T: shapeOf(want0)})
+	g.Nodes = []mon.GNode{
+		{Op: "Reshape", Name: "before", Inputs: []string{"i0", "sw_shape_in"}, Outputs: []string{"sw_operand"}},
+		node,
+		{Op: "Reshape", Name: "after", Inputs: []string{"sw_result", "sw_shape_out"}, Outputs: []string{first}},
+	}
+	return g, feed, true
+}
+
 func addOmittedOutputUpstream(g *mon.Graph) {
 	const H = 2
 	x := ref.FromF(ref.F32, []int{2, 1, 3}, []float64{0.5, -1, 0.25, 1, 0.75, -0.5})
